@@ -75,11 +75,12 @@ C09(c) == /\ \A i \in DOMAIN c.obs.mocks : c.obs.mocks[i].found /\ GenericKept(c
 (* ---------------------------------------------------------------- C10 ---- *)
 SrcImported(o) == \E i \in DOMAIN o.imports : o.imports[i].path = o.srcPath
 C10(c) == LET o == c.obs IN
-    IF o.inPlace
-    THEN ~SrcImported(o) /\ o.srcQualified = 0
-    ELSE /\ o.srcBare = 0
-         /\ IF c.cfg.skipEnsure THEN SrcImported(o) <=> o.refsSrcTypes
-            ELSE (o.mocks # <<>>) => SrcImported(o)
+    /\ o.srcMisqualified = 0
+    /\ IF o.inPlace
+       THEN ~SrcImported(o) /\ o.srcQualified = 0
+       ELSE /\ o.srcBare = 0
+            /\ IF c.cfg.skipEnsure THEN SrcImported(o) <=> o.refsSrcTypes
+               ELSE (o.mocks # <<>>) => SrcImported(o)
 
 (* ---------------------------------------------------------------- C11 ---- *)
 NeedsSync(o) == \E i \in DOMAIN o.mocks : o.mocks[i].ifaceSigs # <<>>
@@ -160,6 +161,8 @@ C20(c) == LET o == c.obs IN
     /\ o.mockDecls = [i \in DOMAIN o.mocks |-> o.mocks[i].name]       \* one mock type per argument, in order, named as requested
     /\ \A i \in DOMAIN o.mocks : o.mocks[i].found
     /\ \A i \in DOMAIN c.solo : MockShape(c.solo[i]) = MockShape(o.mocks[c.soloIdx[i]])
+    \* mocks that are valid Go alone are valid Go together
+    /\ (c.solo # <<>> /\ c.soloErrs = 0) => o.typeErrors = <<>>
 
 (* ---------------------------------------------------------------- C15 ---- *)
 (* library level: with moq's own output installed in the source package the  *)
